@@ -124,6 +124,13 @@ func (vc *VC) Define(hint string, t Term) Term {
 	if len(t.S) < 24 || isAtom(t.S) {
 		return t
 	}
+	return vc.DefineAlways(hint, t)
+}
+
+func (vc *VC) DefineAlways(hint string, t Term) Term {
+	if isAtom(t.S) {
+		return t
+	}
 	n := vc.freshName(hint)
 	if k := len(vc.defScopes); k > 0 {
 		*vc.defScopes[k-1] = append(*vc.defScopes[k-1], fmt.Sprintf("(%s %s)", n, t.S))
@@ -163,6 +170,12 @@ func (vc *VC) posOf(p token.Pos) string {
 func (vc *VC) Oblige(kind, label string, pos token.Pos, st *State, goal Term, desc string) *Obligation {
 	if vc.dry > 0 {
 		return nil
+	}
+	if strings.HasPrefix(vc.ct.funcName(), "lemma:") {
+		o := &Obligation{Name: vc.ct.Func + "#" + kind + ":" + label, Kind: kind, Func: vc.ct.Func, Desc: desc,
+			Reach: st.reach, Goal: goal, NDecls: len(vc.decls), Props: vc.ct.Props}
+		vc.obls = append(vc.obls, o)
+		return o
 	}
 	if goal.S == "true" || st.reach.S == "false" {
 		// trivially discharged; still counted so that obligation counts are stable
